@@ -139,7 +139,7 @@ def gen(rng, prop, tier):
             ops.append({'op': 'r_set_complete', 'r': rng.randrange(N_REPORTERS)})
         elif k == 'r_reset':
             ops.append({'op': 'r_reset', 'r': rng.randrange(N_REPORTERS),
-                        'm': rng.choice([None, None, 1, 2, 3])})
+                        'm': rng.choice([None, None, 1, 2, 3, 0])})
     return {'engine': NAME, 'cfg': {'callbacks': cbs, 'use_global': use_global,
                                     'falsy_sender': falsy,
                                     'value_sender': rng.random() < 0.3}, 'ops': ops}
